@@ -180,6 +180,16 @@ func (a *dataSetAof) Close() {
 	}
 }
 
+// CloseReaders closes the readers positioned on this segment
+func (a *dataSetAof) CloseReaders() {
+	a.mux.Lock()
+	readers := append([]*AofRotateReader(nil), a.readers...)
+	a.mux.Unlock()
+	for _, r := range readers {
+		r.Close()
+	}
+}
+
 func (a *dataSetAof) CloseWriter() {
 	if a.rwRef.Load() == 0 { //fast path
 		return
@@ -359,12 +369,13 @@ func (ds *dataSet) FindAof(left int64) *dataSetAof {
 	return ds.aofMap[left]
 }
 
-func (ds *dataSet) trimLastEmptyAof() {
+// trimLastEmptyAof drops the last segment when it is empty and returns it
+func (ds *dataSet) trimLastEmptyAof() *dataSetAof {
 	ds.mux.Lock()
 	defer ds.mux.Unlock()
 
 	if len(ds.aofSegs) == 0 {
-		return
+		return nil
 	}
 
 	aofLast := len(ds.aofSegs) - 1
@@ -372,7 +383,9 @@ func (ds *dataSet) trimLastEmptyAof() {
 	if lastAof.rtSize.Load() == 0 {
 		delete(ds.aofMap, lastAof.Left())
 		ds.aofSegs = ds.aofSegs[:aofLast]
+		return lastAof
 	}
+	return nil
 }
 
 func (ds *dataSet) IndexAof(offset int64) *dataSetAof {
